@@ -40,6 +40,8 @@ PROPS = {
             "coldpath": (None, ALL, "crash"),
             "select": (None, ALL, "crash"),
             "step": (None, ALL, "crash"),
+            # the cross-worker half of failure propagation, as far as it is under contract (quiver-environment/src/worker.rs)
+            "worker": (None, ALL),
             "equality": [(["Executor::handle_equal"], ALL, "crash"), (None, ("safety",))],
             "transfer": (None, ("safety",)),
             "builtins_binary": (None, ("safety",)),
@@ -73,6 +75,8 @@ PROPS = {
             ),
             # the expiry wake-up: exactly the parked processes one of whose timeouts has run out go back to the run queue
             "step": (["Executor::check_expired_timeouts"], ALL, "sem"),
+            # awaiting a process on this worker: registration of whoever is not finished, the answer's arrival
+            "worker": (["Worker::query_and_await", "Worker::notify_result"], ALL, "sem"),
         },
         "kani": [],
     },
